@@ -94,6 +94,10 @@ impl RestorerJob {
                             ),
                         );
                     }
+                    if !matches!(job_task.state, JobTaskState::Waiting) {
+                        // Already restored when a previous submit of this job was processed
+                        continue;
+                    }
                     match &task.state {
                         JobTaskState::Waiting | JobTaskState::Running { .. } => continue,
                         JobTaskState::Finished { .. } => job.counters.n_finished_tasks += 1,
